@@ -14,7 +14,7 @@ RULE = (
     "both (pool-level decoys), pool float, request float, request float over pool-level decoys} x connect duration d from {0, .25, .5, 1, 2, 5, 20} on a "
     "virtual clock x history {fresh connection, reused connection, second request on a new connection after a first "
     "one with its own d, the attempt re-issued after a 503 (status retry)} x server {answers, stays silent} x scheme {http, https over the identity TLS layer, https through a CONNECT tunnel of a ProxyManager}; the quick "
-    "tier already enumerates this grid completely (distinct by construction). Plus the invalid-value table and the "
+    "tier already enumerates this grid completely (distinct by construction), each cell with one of socket_options default / None / [] / custom. Plus the invalid-value table and the "
     "pure Timeout arithmetic grid; thorough adds Hypothesis-drawn floats (monotonicity / bound checks). Non-trivial = "
     "total is set together with connect or read, or d > 0, or it is a second request."
 )
@@ -130,6 +130,12 @@ def run_http(case) -> list[Failure]:
     with fakenet.Net(srv, clock) as net:
         pool_kw = {}
         req_kw = {}
+        # other connection keywords must not matter for the timeouts: socket_options default | None | [] | a custom list
+        so = case.get("sockopts", "default")
+        if so not in ("default", "none", "empty", "custom"):
+            raise core.InvalidCase
+        if so != "default":
+            pool_kw["socket_options"] = {"none": None, "empty": [], "custom": [(_socket.IPPROTO_TCP, _socket.TCP_NODELAY, 1)]}[so]
         real = _mk_timeout(total, connect, read) if not placement.endswith("float") else connect
         if placement in ("pool", "pool-float"):
             pool_kw["timeout"] = real
@@ -399,6 +405,10 @@ def nontrivial(case):
     return (t is not None and (c is not None or r is not None)) or case["d"] > 0 or case.get("history") in ("reused", "second-fresh")
 
 
+def hash_i(*parts) -> int:
+    return core.h64(core.canon([str(p) for p in parts])) & 0xFFFFFF
+
+
 def _grid(schemes):
     for scheme in schemes:
         for total, connect, read in itertools.product(VALS, repeat=3):
@@ -414,7 +424,7 @@ def _grid(schemes):
                             t = _num(total)
                             if t is not None and d_first >= t:
                                 d_first = 0
-                            yield {"kind": "http", "scheme": scheme, "total": total, "connect": connect, "read": read, "placement": placement, "d": d, "history": history, "silent": silent, "d_first": d_first}
+                            yield {"kind": "http", "scheme": scheme, "total": total, "connect": connect, "read": read, "placement": placement, "d": d, "history": history, "silent": silent, "d_first": d_first, "sockopts": core.pick(len(str((total, connect, read, placement, d, history, silent))) * 7919 + hash_i(total, connect, read, placement, d, history, silent), 1, ("default", "default", "none", "empty", "custom"))}
 
 
 def shards(tier, seed):
